@@ -12,7 +12,7 @@ CLAIMED = {
  "C16": dict(
    text="Seeded search over the schedules the property quantifies over: every permutation KFold/train_test_split can draw is decided by the simulator through the patched ThreadRng seam (all n! orders for n<=5 exhaustively, >1e5 distinct decoded permutations per quick run for n<=64, extreme words at random draw sites), shuffle-off enumerated exhaustively for all 2<=k<=n<=64; leakage is judged from the rows the recording estimator/scorer parties actually receive, as in-run invariants and as a check over the recorded history, also under injected estimator failures. Few-run batches reach the far ends of the domain (train_test_split on > 2^24 rows, KFold with > 65536 folds streamed from the iterator). A clean batch is evidence, not proof, for n>5 with shuffling on.",
    design_ref="DESIGN.md 5.1",
-   note="Trusts: the patched copy of rand 0.8.8 (only ThreadRng's word source is replaced; shuffle/gen_range are rand's real code), the harness's identity-carrying workload (row id in column 0, re-derivable from every column and the target). Real: smartcore model_selection + DenseMatrix/Vec take. Stub: ThreadRng entropy, estimator/scorer closures (recording parties).",
+   note="Trusts: the patched copy of rand 0.8.8 (only ThreadRng's word source is replaced; shuffle/gen_range are rand's real code), the harness's identity-carrying workload (row id in column 0, re-derivable from every column and the target). Real: smartcore model_selection + take on DenseMatrix/Vec, ndarray (both memory layouts) and nalgebra (train_test_split). Stub: ThreadRng entropy, estimator/scorer closures (recording parties).",
    technique="deterministic simulation: seeded PRNG owns every thread_rng draw (forced/extreme/random permutations), recorded-history leakage oracle, estimator-failure injection, replayable tape"),
  "C12": dict(
    text="Seeded search over k-means++ initialisations: the simulator serves every thread_rng word behind the first-centroid index and every D^2 cut-off (PRNG words, extreme words such as cut-off 0.0 / 1-2^-53, forced first row), so each run is one exactly replayable initialisation; a cfg-guarded in-run probe hands every tree-accelerated assignment step (the centroids actually used, sums, counts, membership, distortion) to an exhaustive-search reference model while the fit proceeds, and the fitted model (k/size/centroids/_y via serde) and predict are judged afterwards. The assignment step is additionally driven directly with coincident / far-outside / mid-point centroid sets (schedule-free, reported separately). A process-killing run is contained by a supervising process and reported with its replay file.",
